@@ -4,7 +4,7 @@ import json,glob,collections,sys
 prop=sys.argv[1]
 c=collections.Counter(); ex={}
 for f in glob.glob('/verif/evidence/replays/%s_*.json'%prop):
-    d=json.load(open(f)); v=d['verdict']; t=d['trace']; e=t['ev'][v['step']-1]
+    d=json.load(open(f)); v=d['verdict']; t=d['trace']; e=(t.get('ev') or t.get('calls'))[v['step']-1]
     key=(d.get('tag',''),tuple(v['clauses']), e.get('op',''), e.get('raised',''))
     c[key]+=1
     if key not in ex:
